@@ -507,7 +507,7 @@ def main(argv=None):
                 if fn.endswith('.json'):
                     with open(os.path.join(cdir, fn)) as f:
                         cases.append(json.load(f))
-        n_st, n_un, n_db = (70, 50, 45) if not ck.thorough else (2500, 1200, 1200)
+        n_st, n_un, n_db = (100, 60, 60) if not ck.thorough else (4000, 2000, 2000)
         for kind in KINDS:
             for _ in range(n_st if kind != 'mapping' else n_st // 4):
                 cases.append(gen_storage_case(ck.rng, kind))
